@@ -91,6 +91,9 @@ ParCallerPR == [ParDefault EXCEPT !.ctrls = <<Xc(11), PRc(5, 0)>>]
 AllLoss(pages) == {NoLoss} \cup UNION {{[pg |-> p, pos |-> i] : i \in 0..(Len(pages[p].items) + 1)} : p \in 1..Len(pages)}
 SomeLoss(pages) == {NoLoss} \cup UNION {{[pg |-> p, pos |-> i] : i \in {0, Len(pages[p].items) + 1}} : p \in 1..Len(pages)}
 
+\* the server falls silent instead of sending the pos-th message of page p (a timeout is set on the search)
+SilentLoss(pages) == UNION {{[pg |-> p, pos |-> i, how |-> "silent"] : i \in 1..(Len(pages[p].items) + 1)} : p \in 1..Len(pages)}
+
 Chains5 == { <<>>, <<"EO">>, <<"PR">>, <<"EO", "PR">>, <<"PR", "EO">> }
 ChainsPR == { <<"PR">>, <<"EO", "PR">>, <<"PR", "EO">> }
 Env(chain, pages, loss, par, psize) == [chain |-> chain, pages |-> pages, loss |-> loss, par |-> par, psize |-> psize]
@@ -135,6 +138,10 @@ C16EnvsThorough ==
   \cup UNION {{Env(c, s, l, Par1, 1000) : l \in AllLoss(s) \ {NoLoss}} : c \in ChainsPR, s \in RegularQuick \cup Specials}
 
 NoEnvs == {}
+\* ---- C12 instances: every chain x scripts of one to three pages x the server falling silent at every position
+C12Envs == UNION {{Env(c, s, l, Par1, 2) : l \in SilentLoss(s)} : c \in Chains5, s \in {Single(<<"e", "r">>, 3), M1, M3, Paged(3, 2, 1, FALSE)}}
+C12Plans == {NextN(a) \o t : a \in 0..4, t \in {<<"finish", "finish">>, <<"drain", "finish", "next">>, <<"next", "state", "finish">>}}
+
 NoPlans == {}
 AlphaNF == {"next", "finish"}
 AlphaNFS == {"next", "finish", "state"}
